@@ -249,13 +249,22 @@ class _Collector:
 
 # ----------------------------------------------------------------------------------------------- the run
 def run(ctx):
+    """entry point: the test-problem constructors draw from numpy's global RNG, which is restored"""
+    import_cuqi()
+    st = np.random.get_state()
+    try:
+        _run(ctx)
+    finally:
+        np.random.set_state(st)
+
+
+def _run(ctx):
     cuqi = import_cuqi()
     from cuqi.model import LinearModel
     from scipy.sparse import csc_matrix, csr_matrix
     thorough = ctx.tier == "thorough"
     rng = ctx.rng
     nrs = np.random.RandomState(ctx.seed + 7)
-    saved_state = np.random.get_state()
     ctx.trusted += ["numpy/scipy kernels of the implementation (matmul, reshape, convolve1d, np.pad, fftconvolve, dst/idst) enter only through the probed matrices",
                     "KLExpansion / MappedGeometry par2fun and fun2par matrices are leaf data measured on the implementation"]
     ctx.assumptions += ["integer / 0-1 data compared exactly; cases involving 1/count, KL leaf matrices, named PSFs, fftconvolve compared with rel+abs tolerance 1e-9",
@@ -642,4 +651,3 @@ def run(ctx):
             ctx.disagree("tie:protocol", {"line": line[:200]}, "bad-op", "-", "driver could not parse a generated line")
             continue
         h(out)
-    np.random.set_state(saved_state)
